@@ -1898,6 +1898,9 @@ impl<'a> Socket<'a> {
         // Whether to answer with a (rate-limited) challenge ACK once the segment is processed.
         let mut reply_challenge_ack = false;
 
+        // Whether the remote side's FIN was received in an earlier segment.
+        let fin_already_received = self.rx_fin_received;
+
         // Validate and update the state.
         match (self.state, control) {
             // RSTs are not accepted in the LISTEN state.
@@ -2233,6 +2236,14 @@ impl<'a> Socket<'a> {
                 self.timer.set_for_idle(cx.now(), self.keep_alive);
             }
         }
+
+        // RFC 9293 (3.10.7.4): once the remote side's FIN has been received,
+        // any further segment text is ignored.
+        let payload = if fin_already_received {
+            &[][..]
+        } else {
+            payload
+        };
 
         let payload_len = payload.len();
         if payload_len == 0 {
